@@ -389,6 +389,29 @@ func newLogSinkHistory(r *vlib.Rand) *history {
 			return true
 		}},
 		mutOp{"TransferOidToTag", func(r *vlib.Rand) bool {
+			// any subset of object id / kind / node may be unset (0) when the ids are transferred
+			if r.Bool() {
+				if r.Bool() {
+					g.SetOID(0)
+					ref.Oid = 0
+				}
+				if r.Bool() {
+					g.SetOKIND(0)
+					ref.Okind = 0
+				} else if ref.Okind == 0 {
+					v := nz32(r)
+					g.SetOKIND(v)
+					ref.Okind = v
+				}
+				if r.Bool() {
+					g.SetONODE(0)
+					ref.Onode = 0
+				} else if ref.Onode == 0 {
+					v := nz32(r)
+					g.SetONODE(v)
+					ref.Onode = v
+				}
+			}
 			g.TransferOidToTag()
 			for _, e := range []struct {
 				k string
